@@ -172,6 +172,53 @@ class Source:
             t = dedent(t, ind)
         return Item(name or fn_name, self.rel, self._line_of(b), t)
 
+    def slice(self, fn_name, start_re, end_re, header, name):
+        """R6: a contiguous statement range of fn_name's body, from the line matching start_re through the line
+        matching end_re (inclusive; if that line opens a bracket the statement is taken to its matching close and `;`),
+        wrapped as `header { <bytes> }`.  The bytes are copied verbatim and dedented."""
+        ms = list(re.finditer(_FN_HDR % re.escape(fn_name), self.text))
+        if len(ms) != 1:
+            raise ExtractError('slice: fn %s defined %d times in %s' % (fn_name, len(ms), self.rel))
+        b, o, e = fn_span(self.text, fn_name)
+        body = self.text[o + 1:e - 1]
+        m1 = re.compile(start_re, re.M).search(body)
+        if not m1:
+            raise ExtractError('slice anchor lost: %s /%s/' % (self.rel, start_re))
+        m2 = re.compile(end_re, re.M).search(body, m1.start())
+        if not m2:
+            raise ExtractError('slice anchor lost: %s /%s/' % (self.rel, end_re))
+        s0 = body.rfind('\n', 0, m1.start()) + 1
+        # end of the statement that starts on m2's line
+        e0 = body.find('\n', m2.end() - 1)
+        if e0 < 0:
+            e0 = len(body)
+        seg = body[s0:e0]
+        # balance check: the slice must be a whole number of statements at one nesting level
+        depth = 0
+        j = 0
+        while j < len(seg):
+            k = lex_skip(seg, j)
+            if k is not None:
+                j = k
+                continue
+            if seg[j] in '([{':
+                depth += 1
+            elif seg[j] in ')]}':
+                depth -= 1
+                if depth < 0:
+                    raise ExtractError('slice %s is not balanced (closes more than it opens)' % name)
+            j += 1
+        if depth != 0:
+            raise ExtractError('slice %s is not balanced (depth %d at end)' % (name, depth))
+        ind = len(re.match(r'[ \t]*', seg).group(0))
+        txt = '\n'.join((l[ind - 4:] if l.startswith(' ' * (ind - 4)) else l) for l in seg.split('\n')) if ind >= 4 else indent(seg, 4 - ind)
+        item = Item(name, self.rel, self._line_of(o + 1 + s0), header + ' {\n' + txt + '\n}')
+        item.orig = seg
+        item.sha256 = hashlib.sha256(seg.encode()).hexdigest()
+        item._log('R6', 'slice of fn %s, lines %d-%d, wrapped as `%s`' % (
+            fn_name, self._line_of(o + 1 + s0), self._line_of(o + 1 + e0), ' '.join(header.split())[:80]))
+        return item
+
     def has(self, regex):
         return re.compile(regex, re.M | re.S).search(self.text) is not None
 
